@@ -70,6 +70,7 @@ struct Value {
     std::string name, cls;
     std::vector<AV> s[2];      // two copies with independent string/blob storage (left and right operand)
     char type = 0;             // scalar tag, 'a' for arrays
+    int canon = -1;            // index of the first alphabet entry that denotes the same value (boolean arrays exist in two typing conventions)
     // reference semantics for the same-type ordering clause
     long long iv = 0; double dv = 0; uint64_t tv = 0; std::string sv; std::vector<uint8_t> bv;
 };
@@ -146,6 +147,15 @@ static void build_alphabet()
     add_array("[h1]", 'h', {[] { return av_h(1); }});
 }
 
+static void set_canon()
+{
+    for(size_t k = 0; k < V.size(); ++k) {
+        std::string base = V[k].name.substr(0, V[k].name.find("]:"));
+        V[k].canon = (int)k;
+        for(size_t j = 0; j < k; ++j) if(V[j].name.substr(0, V[j].name.find("]:")) == base) { V[k].canon = (int)j; break; }
+    }
+}
+static bool same_value(int x, int y) { return V[x].canon == V[y].canon; }
 static int vindex(const std::string &name)
 {
     for(size_t k = 0; k < V.size(); ++k) if(V[k].name == name) return (int)k;
@@ -202,7 +212,7 @@ static std::vector<List> all_lists(const std::vector<int> &alpha, int maxlen)
 static std::string pair_class(const List &a, const List &b)
 {
     size_t k = 0;
-    while(k < a.vi.size() && k < b.vi.size() && a.vi[k] == b.vi[k]) ++k;
+    while(k < a.vi.size() && k < b.vi.size() && same_value(a.vi[k], b.vi[k])) ++k;
     if(k == a.vi.size() && k == b.vi.size()) return "same";
     if(k == a.vi.size() || k == b.vi.size()) return "length";
     const Value *x = &V[a.vi[k]], *y = &V[b.vi[k]];
@@ -223,13 +233,39 @@ static std::string pair_class(const List &a, const List &b)
 static bool first_diff_same_type(const List &a, const List &b)
 {
     size_t k = 0;
-    while(k < a.vi.size() && k < b.vi.size() && a.vi[k] == b.vi[k]) ++k;
+    while(k < a.vi.size() && k < b.vi.size() && same_value(a.vi[k], b.vi[k])) ++k;
     if(k == a.vi.size() || k == b.vi.size()) return true;
     return V[a.vi[k]].type == V[b.vi[k]].type;
 }
 
 static int lib_cmp(const std::vector<AV> &l, size_t ln, const std::vector<AV> &r, size_t rn) { vp::transition(); return rtosc_arg_vals_cmp(l.data(), r.data(), ln, rn, nullptr); }
 static int lib_eq(const std::vector<AV> &l, size_t ln, const std::vector<AV> &r, size_t rn) { vp::transition(); return rtosc_arg_vals_eq(l.data(), r.data(), ln, rn, nullptr); }
+
+// single-value pairs that break a pair law by themselves: a longer pair of lists that contains one of them at a
+// differing position is not evaluated again (the defect is reported once, at the value level; no cascade)
+static std::vector<char> g_badv;
+static void compute_badv()
+{
+    const size_t n = V.size();
+    g_badv.assign(n * n, 0);
+    uint64_t before = vp::ctx().transitions;
+    for(size_t x = 0; x < n; ++x) for(size_t y = 0; y < n; ++y) {
+        int c_ab = lib_cmp(V[x].s[0], V[x].s[0].size(), V[y].s[1], V[y].s[1].size()), c_ba = lib_cmp(V[y].s[0], V[y].s[0].size(), V[x].s[1], V[x].s[1].size());
+        int e_ab = lib_eq(V[x].s[0], V[x].s[0].size(), V[y].s[1], V[y].s[1].size()), e_ba = lib_eq(V[y].s[0], V[y].s[0].size(), V[x].s[1], V[x].s[1].size());
+        bool bad = sgn(c_ab) != -sgn(c_ba) || (c_ab == 0) != (e_ab != 0) || (c_ba == 0) != (e_ba != 0) || (x == y && (c_ab != 0 || !e_ab));
+        bool spec; int want = ref_order(V[x], V[y], spec);
+        if(spec && sgn(c_ab) != want) bad = true;
+        g_badv[x * n + y] = bad;
+    }
+    vp::ctx().transitions = before;
+}
+static bool shadowed(const List &a, const List &b)
+{
+    if(a.vi.size() < 2 && b.vi.size() < 2) return false;
+    for(size_t k = 0; k < a.vi.size() && k < b.vi.size(); ++k)
+        if(a.vi[k] != b.vi[k] && (g_badv[a.vi[k] * V.size() + b.vi[k]] || g_badv[b.vi[k] * V.size() + a.vi[k]])) return true;
+    return false;
+}
 
 // ---- phase P: pair laws -------------------------------------------------------------------------------
 // returns false if the pair breaks a pair law (such pairs are kept out of the transitivity phase)
@@ -252,7 +288,7 @@ static bool eval_pair(const List &a, const List &b, bool same, int c_ab, int c_b
     // same-type ordering: lists of equal length that differ in exactly one position, by two values of one type
     if(!same && a.vi.size() == b.vi.size()) {
         int ndiff = 0; size_t p = 0;
-        for(size_t k = 0; k < a.vi.size(); ++k) if(a.vi[k] != b.vi[k]) { ++ndiff; p = k; }
+        for(size_t k = 0; k < a.vi.size(); ++k) if(!same_value(a.vi[k], b.vi[k])) { ++ndiff; p = k; }
         if(ndiff == 1) {
             bool spec; int want = ref_order(V[a.vi[p]], V[b.vi[p]], spec);
             if(spec && (sgn(c_ab) != want || sgn(c_ba) != -want)) {
@@ -275,6 +311,7 @@ static void phase_pairs(const char *set, const std::vector<List> &L)
             if(!rp_is(2, (long long)j)) continue;
             if(g_rp.on && !vp::want(std::string("P|") + set + "|" + std::to_string(i) + "|" + std::to_string(j))) continue;
             const List &a = L[i], &b = L[j];
+            if(shadowed(a, b)) { vp::outcome("pair-long:not-evaluated-contains-a-value-pair-that-breaks-a-pair-law"); continue; }
             int c_ab = lib_cmp(a.s[0], ns[i], b.s[1], ns[j]);
             int c_ba = lib_cmp(b.s[0], ns[j], a.s[1], ns[i]);
             int e_ab = lib_eq(a.s[0], ns[i], b.s[1], ns[j]);
@@ -431,8 +468,8 @@ static std::string seg_class(const std::vector<El> &x, const std::vector<Seg> &s
     // shape class of a compressed list: which kinds of range it contains (and for which type)
     bool one = false, nx = false, delta = false, nxb = false;
     for(const Seg &g : segs) {
-        if(g.kind == 1 && !el_numeric(x[g.start])) nxb = true;
-        else if(g.kind == 1 && g.n == 1) one = true;
+        if(g.kind == 1 && g.n == 1) one = true;
+        else if(g.kind == 1 && !el_numeric(x[g.start])) nxb = true;
         else if(g.kind == 1) nx = true;
         else if(g.kind == 2) delta = true;
     }
@@ -671,6 +708,8 @@ int main(int argc, char **argv)
     rp_init();
     const bool T = vp::thorough();
     build_alphabet();
+    set_canon();
+    compute_badv();
 
     std::vector<int> full; for(size_t k = 0; k < V.size(); ++k) full.push_back((int)k);
     std::vector<int> sub10, sub16;
